@@ -9,10 +9,13 @@ package http3
 import (
 	"context"
 	"fmt"
+	"io"
 	"os"
+	"regexp"
 	"runtime"
 	"runtime/debug"
 	"strings"
+	"sync"
 	"sync/atomic"
 	"testing"
 	"testing/synctest"
@@ -277,6 +280,131 @@ func vqsBubbleTrouble(c *verifrt.Case, inner, outer string) {
 		first, _, _ := strings.Cut(inner, "\n")
 		c.Violation(vqsPanicKey(first, inner), "panic inside the bubble of %s/%d: %s", c.Stream, c.Index, inner)
 	} else if outer != "" {
+		if vqsRaceEnabled && strings.HasPrefix(outer, "bubble aborted") {
+			// most likely a race report during this bubble (all its sub-cases were still run)
+			n := vqsRaceViolations(c.R, func(key, detail string) {
+				c.Violation(key, "%s\n(reported while or before batch %s/%d ran)", detail, c.Stream, c.Index)
+			})
+			// The report of this bubble may have been read back by a concurrent batch, or may
+			// not have reached the log file yet: vqsRaceFinish settles the account.
+			vqsRaceLog.mu.Lock()
+			vqsRaceLog.found += n
+			vqsRaceLog.aborted = append(vqsRaceLog.aborted, fmt.Sprintf("%s/%d", c.Stream, c.Index))
+			vqsRaceLog.mu.Unlock()
+			return
+		}
 		c.Violation("bubble-failed", "synctest bubble of %s/%d failed: %s", c.Stream, c.Index, outer)
 	}
+}
+
+// vqsRaceFinish is called once at the end of a monitor: picks up race reports not yet
+// attributed and makes the run inconclusive when the harness itself raced.
+func vqsRaceFinish(r *verifrt.R) {
+	if !vqsRaceEnabled {
+		return
+	}
+	time.Sleep(time.Second) // (real time) stragglers on their way into the log file
+	n := vqsRaceViolations(r, func(key, detail string) { r.Violation(key, "%s", detail) })
+	vqsRaceLog.mu.Lock()
+	found, aborted := vqsRaceLog.found+n, vqsRaceLog.aborted
+	vqsRaceLog.mu.Unlock()
+	r.Event("race_reports_read_back", int64(found))
+	r.Event("bubbles_ended_by_race_report", int64(len(aborted)))
+	if len(aborted) > 0 && found == 0 {
+		// (the detector prints a given race once but fails every bubble it recurs in, so the
+		// two numbers need not match; with no report at all the aborts are unexplained)
+		r.Violation("bubble-failed", "%d bubbles were aborted without a panic (%v) and no race report was found in the log", len(aborted), aborted)
+	}
+	if r.EventCount("harness_race_reports") > 0 {
+		r.Require("run_without_harness_race", 1)
+	}
+}
+
+// ---- race reports ----
+//
+// With the race detector on and GORACE=halt_on_error=0 (set in checks.d for the monitors that
+// want it) a race does not kill the child: the report goes to stderr, the bubble's T is marked
+// failed when the bubble ends and synctest.Test calls FailNow on the parent (which vqsBubble
+// turns into "bubble aborted"). The child's stderr is $VERIF_OUT/child.log, so the reports can
+// be read back and turned into violations with a narrow key: the innermost golang.org/x/net
+// function of each of the two conflicting accesses. A report is only a violation when both
+// accesses are in golang/net (non-harness) code; otherwise it is the harness that raced and
+// the run is made inconclusive.
+
+var vqsRaceLog struct {
+	mu      sync.Mutex
+	off     int64
+	found   int      // race blocks read back so far
+	aborted []string // batches whose bubble was aborted without a panic
+}
+
+var vqsRaceFn = regexp.MustCompile(`(?m)^\s+golang\.org/x/net/(\S+)\(\)$`)
+
+// vqsRaceViolations reports the race blocks that appeared in the child's log since the last
+// call; it returns how many blocks it found.
+func vqsRaceViolations(r *verifrt.R, viol func(key, detail string)) int {
+	dir := os.Getenv("VERIF_OUT")
+	if dir == "" {
+		return 0
+	}
+	time.Sleep(300 * time.Millisecond) // (real time) let `go test` copy our stderr into the file
+	vqsRaceLog.mu.Lock()
+	defer vqsRaceLog.mu.Unlock()
+	f, err := os.Open(dir + "/child.log")
+	if err != nil {
+		return 0
+	}
+	defer f.Close()
+	f.Seek(vqsRaceLog.off, 0)
+	b, _ := io.ReadAll(f)
+	s := string(b)
+	// only consume complete blocks
+	const bar = "=================="
+	n := 0
+	for {
+		i := strings.Index(s, "WARNING: DATA RACE")
+		if i < 0 {
+			break
+		}
+		j := strings.Index(s[i:], bar)
+		if j < 0 {
+			break // block still being written
+		}
+		block := s[i : i+j]
+		body := strings.TrimPrefix(block, "WARNING: DATA RACE\n")
+		consumed := i + j + len(bar)
+		s = s[consumed:]
+		vqsRaceLog.off += int64(consumed)
+		n++
+		secs := strings.Split(body, "\n\n")
+		var fns []string
+		for _, sec := range secs {
+			if len(fns) == 2 {
+				break
+			}
+			head, _, _ := strings.Cut(strings.TrimLeft(sec, "\n"), "\n")
+			if !strings.Contains(head, " by goroutine ") && !strings.Contains(head, " by main goroutine") {
+				continue
+			}
+			fn := ""
+			for _, m := range vqsRaceFn.FindAllStringSubmatch(sec, -1) {
+				if strings.Contains(m[1], "verif") || strings.Contains(m[1], "Verif") || strings.Contains(m[1], ".v3") || strings.Contains(m[1], ".vqs") || strings.Contains(m[1], ".vhn") {
+					continue
+				}
+				fn = m[1]
+				break
+			}
+			fns = append(fns, fn)
+		}
+		if len(fns) == 2 && fns[0] != "" && fns[1] != "" {
+			if fns[0] > fns[1] {
+				fns[0], fns[1] = fns[1], fns[0]
+			}
+			viol("race:"+fns[0]+"|"+fns[1], "the race detector reported (both accesses in golang/net code):\n"+block)
+		} else {
+			r.Event("harness_race_reports", 1)
+			r.Note("race report involving harness code only on one side:\n%s", block)
+		}
+	}
+	return n
 }
